@@ -1,6 +1,7 @@
 package main
 
 import (
+	"context"
 	"fmt"
 	"runtime"
 
@@ -146,5 +147,103 @@ func init() {
 				}
 			}
 			return fmt.Sprintf("%d", len(items)), v, len(want)
+		})
+}
+
+// Record with every skip value from 0 up to well beyond the depth of the stack, from three call depths
+// (directly, through one and through two helper frames), after other lookups have run in the same mode:
+// "for Record, the frame chosen by its skip argument". Oracle: skip k >= 1 reports what
+// runtime.Caller(k-1) reports at the Record call itself (file and line of frame k above Record, empty beyond
+// the stack), and the default and the fast mode report the same location for every skip.
+
+//go:noinline
+func c11RecordAt(skip int, id int) (string, int, bool) {
+	_, f, l, ok := runtime.Caller(max(skip-1, 0))
+	log.Record(context.Background(), log.InfoLevel, tagC01, skip, log.Int("id", id))
+	if skip == 1 {
+		l++ // frame 0 is this function: Record sits on the next line
+	}
+	return f, l, ok
+}
+
+//go:noinline
+func c11RecordVia1(skip, id int) (string, int, bool) {
+	f, l, ok := c11RecordAt(skip, id)
+	return f, l, ok
+}
+
+//go:noinline
+func c11RecordVia2(skip, id int) (string, int, bool) {
+	f, l, ok := c11RecordVia1(skip, id)
+	return f, l, ok
+}
+
+func init() {
+	type skipCase struct {
+		Fast bool `json:"fast"`
+	}
+	definePart("C11", "c11/record-skips", "qt", "Record with skip 1..12, 50, 1000 from three call depths, after other lookups in the same mode; both modes",
+		func(tier string, yield func(skipCase)) {
+			yield(skipCase{false})
+			yield(skipCase{true})
+			yield(skipCase{false})
+		},
+		func(c skipCase) (string, []Violation, int) {
+			confReset()
+			log.VerifReset()
+			conf := map[string]string{"appender.r0.type": "Rec", "logger.root.type": "Logger", "logger.root.appenderRef.ref": "r0", "logger.root.level": "TRACE",
+				"enableCaller": "true", "fastCaller": fmt.Sprint(c.Fast)}
+			key := fmt.Sprintf("fast=%v", c.Fast)
+			if err, pn := safeRefresh(conf); err != nil || pn != nil {
+				return "refresh-failed", []Violation{{Clause: "valid-config-rejected", Key: key, Detail: fmt.Sprintf("err=%v panic=%v", err, pn)}}, 1
+			}
+			type exp struct {
+				f  string
+				l  int
+				ok bool
+				d  string
+			}
+			var want []exp
+			id := 0
+			for round := 0; round < 2; round++ { // the second round runs with whatever the lookups of the first left behind
+				for _, skip := range []int{1, 2, 3, 4, 5, 6, 7, 8, 9, 10, 11, 12, 50, 1000} {
+					for di, via := range []func(int, int) (string, int, bool){c11RecordAt, c11RecordVia1, c11RecordVia2} {
+						c11Sites[(id+3)%len(c11Sites)].run() // other call sites in between
+						id++
+						f, l, ok := via(skip, 100000+id)
+						want = append(want, exp{f, l, ok, fmt.Sprintf("round %d skip %d depth %d", round, skip, di)})
+					}
+				}
+			}
+			log.Destroy()
+			var v []Violation
+			k := 0
+			n := 0
+			for _, it := range recStore["r0"] {
+				if len(it.Event.Fields) == 0 || it.Event.Fields[0].Num < 100000 {
+					continue
+				}
+				if k >= len(want) {
+					break
+				}
+				w := want[k]
+				k++
+				n++
+				gf, gl := it.Event.File, it.Event.Line
+				if !w.ok {
+					w.f, w.l = "", 0
+				}
+				if gf != w.f || gl != w.l {
+					v = append(v, Violation{Clause: "wrong-location", Key: fmt.Sprintf("Record %s fast=%v", w.d, c.Fast),
+						Detail: fmt.Sprintf("%s: event says %q:%d, runtime.Caller for that frame says %q:%d (beyond the stack: %v)", w.d, gf, gl, w.f, w.l, !w.ok)})
+					if len(v) > 5 {
+						break
+					}
+				}
+			}
+			if k != len(want) {
+				v = append(v, Violation{Clause: "site-did-not-log", Key: key, Detail: fmt.Sprintf("%d Record events recorded, want %d", k, len(want))})
+			}
+			return fmt.Sprint(n), v, n
 		})
 }
